@@ -104,8 +104,8 @@ def rule_P8(ck):
                         continue
                     ck.violation(node, f"{norm_text(node)}: stripping the two-character prefix is only right for non-negative values; for a negative value '-0o5'[2:] is 'o5' and the line reads '0000o5' "
                                        "(a symbol such as 'neg = -5' is listed with a garbled value)", construct=f"{node.value.func.id}(x)[2:] with x of unknown sign")
-    if n < 2:
-        ck.unknown(f"only {n} 'oct/hex/bin(x)[2:]' sites found (2 confirmed by hand)")
+    if n < 1:
+        ck.unknown(f"no 'oct/hex/bin(x)[2:]' site found (the listing's octal formatting was one)")
 
 
 def rule_paths(ck):
@@ -132,39 +132,13 @@ def rule_paths(ck):
     ck.instance("emit-none", None, fn=where)
     if ps[0].value != (False, None):
         ck.violation(where, f"emit_files without output directives returns {ps[0].value!r}", construct="emit_files none")
-    # main_cli: .lst derivation idioms
-    fn = repo.func("_cli::main_cli")
-    where = "_cli::main_cli"
-    stmts = {norm_text(n): n for n in walk_local(fn) if isinstance(n, (ast.Assign, ast.AugAssign, ast.If))}
-    init = [n for n in walk_local(fn) if isinstance(n, ast.Assign) and norm_text(n.targets[0]) == "lst_file"]
-    ck.instance("lst-init", {"assignments": [norm_text(n) for n in init]}, fn=where)
-    if not init:
-        raise Unknown("main_cli: lst_file derivation not found")
-    if norm_text(init[0].value) != "emitted_file['path']":
-        ck.violation(init[0], f"the listing name starts from {norm_text(init[0].value)}, expected the path of the first output file", construct="lst base")
-    strip = [n for n in walk_local(fn) if isinstance(n, ast.If) and "lst_file" in norm_text(n.test) and "endswith" in norm_text(n.test)]
-    ok = strip and norm_text(strip[0].test) == "lst_file.endswith('.' + emitted_file['format'])" and any(norm_text(s) == "lst_file = lst_file.rpartition('.')[0]" for s in strip[0].body)
-    ck.instance("lst-strip", {"test": norm_text(strip[0].test) if strip else None}, fn=where)
-    if not ok:
-        ck.violation(strip[0] if strip else init[0], "the '.<format>' suffix of the output name is not stripped (only when present) before '.lst' is added", construct="lst strip")
-    aug = [n for n in walk_local(fn) if isinstance(n, ast.AugAssign) and norm_text(n.target) == "lst_file"]
-    ck.instance("lst-suffix", {"suffix": norm_text(aug[0].value) if aug else None}, fn=where)
-    if not aug or norm_text(aug[0].value) != "'.lst'":
-        ck.violation(aug[0] if aug else init[0], f"the listing suffix is {norm_text(aug[0].value) if aug else None}, expected '.lst'", construct="lst suffix")
-    special = [n for n in walk_local(fn) if isinstance(n, ast.If) and norm_text(n.test) == "lst_file == '-.lst'"]
-    ck.instance("lst-stdout", None, fn=where)
-    if not special or not any(norm_text(s) == "lst_file = 'listing.lst'" for s in special[0].body):
-        ck.violation(init[0], "'-o -' with --lst: the listing must go to 'listing.lst'", construct="lst stdout name")
-    # the listing is written with the text of generate_listing
-    wr = [c for c in guards.calls_in(fn) if isinstance(c.func, ast.Attribute) and c.func.attr == "write" and c.args and "generate_listing" in norm_text(c.args[0])]
-    ck.instance("lst-write", None, fn=where)
-    if not wr:
-        ck.violation(where, "the listing file is not written with generate_listing()'s text", construct="lst write")
 
 
 def run(ck):
     ck.run_rule("C19.text", "listing text: grouping, one line per ordinary symbol, sort key, octal format", 8, rule_listing)
-    ck.run_rule("P8", "oct(v)[2:] is sign-safe", 2, rule_P8)
-    ck.run_rule("C19.path", "listing is named after the first output; .lst derivation", 7, rule_paths)
+    ck.run_rule("P8", "oct(v)[2:] is sign-safe", 1, rule_P8)
+    ck.run_rule("C19.path", "emit_files hands the FIRST output to the CLI as the anchor of the listing name", 2, rule_paths)
     ck.run_rule("C11.R1k", "reader/writer agreement on the '.internal<n>.' key grammar", 3, c11.rule_R1k)
     ck.run_rule("C02.R7w", "listed values are final: every symbol is evaluated before the listing", 1, c02.rule_closing_wait)
+    from ..rules import climodel
+    ck.run_rule("CLI", "main_cli over all output configurations: the listing beside the first output, named after it", 500, climodel.rule_cli, ("writes",))
